@@ -56,29 +56,39 @@ CATALOGUE = [
 ]
 
 
-def run(prop, timeout_ms=10000):
-    """apply every catalogue entry that serves `prop`; returns {"entries": n, "refuted": .., "undecided": .., "survived": [..]}"""
+def _one(entry):
     from pyvc.run import verify_functions
-    out = {"entries": 0, "refuted": 0, "undecided": 0, "survived": [], "not_applicable": []}
-    for func, mod, old, new, props in CATALOGUE:
-        if prop not in props:
-            continue
-        out["entries"] += 1
-        try:
-            r = verify_functions([func], timeout_ms=timeout_ms, procs=1, mutate=(mod, old, new, None, func))[0]
-        except Exception as e:      # noqa: BLE001
-            out["not_applicable"].append(f"{func}: {old!r}: {type(e).__name__}: {e}"[:200])
-            continue
-        if r["status"] == "crash" and "mutant does not apply" in (r["reason"] or ""):
-            out["not_applicable"].append(f"{func}: {old!r} (text no longer present)")
-            continue
-        bad = [o for o in r["obligations"] if o["kind"] not in ("canary",) and o["verdict"] != "unsat"]
-        if any(o["verdict"] == "sat" for o in bad):
-            out["refuted"] += 1
-        elif bad or r["status"] != "ok":
-            out["undecided"] += 1
-        else:
-            out["survived"].append(f"{func}: {old!r} -> {new!r}")
+    func, mod, old, new, props = entry
+    try:
+        r = verify_functions([func], timeout_ms=10000, procs=1, mutate=(mod, old, new, None, func))[0]
+    except Exception as e:      # noqa: BLE001
+        return ("n/a", f"{func}: {old!r}: {type(e).__name__}: {e}"[:200])
+    if r["status"] == "crash" and "mutant does not apply" in (r["reason"] or ""):
+        return ("n/a", f"{func}: {old!r} (text no longer present)")
+    bad = [o for o in r["obligations"] if o["kind"] not in ("canary",) and o["verdict"] != "unsat"]
+    if any(o["verdict"] == "sat" for o in bad):
+        return ("refuted", None)
+    if bad or r["status"] != "ok":
+        return ("undecided", None)
+    return ("survived", f"{func}: {old!r} -> {new!r}")
+
+
+def run(prop, timeout_ms=10000, workers=6):
+    """apply every catalogue entry that serves `prop` (several at a time); returns {"entries": n, "refuted": .., "undecided": ..,
+    "survived": [..], "not_applicable": [..]}"""
+    from concurrent.futures import ThreadPoolExecutor
+    entries = [e for e in CATALOGUE if prop in e[4]]
+    out = {"entries": len(entries), "refuted": 0, "undecided": 0, "survived": [], "not_applicable": []}
+    with ThreadPoolExecutor(max_workers=workers) as ex:
+        for kind, text in ex.map(_one, entries):
+            if kind == "refuted":
+                out["refuted"] += 1
+            elif kind == "undecided":
+                out["undecided"] += 1
+            elif kind == "survived":
+                out["survived"].append(text)
+            else:
+                out["not_applicable"].append(text)
     return out
 
 
